@@ -463,15 +463,29 @@ def run(ctx):
         res.append(digest(mine, skipped if mine else 0, {k - off: v for k, v in diag.items()}))
         off += len(lines)
     a, b, f = res
-    # Binding demonstration: the same judge must reject a corrupted line (the
-    # first check of the first walk with its verdict flipped).
-    k = next(i for i, ln in enumerate(every) if ln["a"] == "check")
-    forged = every[:k] + [dict(every[k], v=not every[k]["v"])]
-    fbad, _, _ = validate(ctx, forged, "forged")
-    if fbad != [len(forged)]:
-        raise vlib.Inconclusive("the trace spec accepted a corrupted line: nothing binds")
-    cov["binding_demo"] = {"corrupted_trace_line_rejected": True,
-                           "line": {x: forged[-1][x] for x in ("a", "q", "v")}, "name": forged[-1]["n"]["l"]}
+    # Binding demonstration: the same judge must reject a corrupted line.  It is
+    # made independent of the tree under test: the line is one the judge has
+    # ACCEPTED (first check of a walk without any rejected line, name without
+    # optional candidates so that q determines v), with its verdict flipped;
+    # and it never pre-empts the report of reproduced disagreements.
+    keys, wid = [], -1
+    for ln in every:
+        if ln["a"] == "reset":
+            wid += 1
+        keys.append(wid)
+    bad_walks = {keys[bl - 1] for bl in bad}
+    k = next((i for i, ln in enumerate(every)
+              if ln["a"] == "check" and ln["n"]["opt"] == 0 and keys[i] not in bad_walks), None)
+    demo = None
+    if k is not None:
+        start = max(i for i in range(k + 1) if every[i]["a"] == "reset")
+        forged = every[start:k] + [dict(every[k], v=not every[k]["v"])]
+        fbad, _, _ = validate(ctx, forged, "forged")
+        demo = fbad == [len(forged)]
+        cov["binding_demo"] = {"corrupted_trace_line_rejected": demo,
+                               "line": {x: forged[-1][x] for x in ("a", "q", "v")}, "name": forged[-1]["n"]["l"]}
+    if demo is not True and not ctx.violations:
+        raise vlib.Inconclusive("the trace spec did not reject a corrupted copy of an accepted line: nothing binds")
     # A trace in which nothing was ever blocked / cached shows nothing -- unless
     # it is the code's misbehaviour that made it so, which is reported first.
     if vacuous and not ctx.violations:
